@@ -1227,7 +1227,7 @@ func checkIteratorAccessorsPure(c *Ctx, rule string) {
 // does not maintain it.
 func checkSnapshotFlags(c *Ctx, rule string) {
 	l := c.L
-	c.rule(rule, "every ImmutableTree built around a nodeDB carries skipFastStorageUpgrade", 4)
+	c.rule(rule, "every ImmutableTree built around a nodeDB carries skipFastStorageUpgrade", 2)
 	it := l.NamedType("", "ImmutableTree")
 	fSkip := l.Field("", "ImmutableTree", "skipFastStorageUpgrade")
 	if it == nil || fSkip == nil {
@@ -1267,8 +1267,8 @@ func checkSnapshotFlags(c *Ctx, rule string) {
 				"an ImmutableTree is built around the nodeDB without the skipFastStorageUpgrade setting (neither in the literal nor by every caller): with the setting on, its Get / Iterator read a persisted index that this session does not maintain")
 		}
 	}
-	if n < 4 {
-		c.anchorMissing(rule, "fewer than 4 ImmutableTree literals with a nodeDB")
+	if n < 2 {
+		c.anchorMissing(rule, "fewer than 2 ImmutableTree literals with a nodeDB")
 	}
 }
 
